@@ -10,8 +10,11 @@ import (
 	"crypto/tls"
 	"errors"
 	"io"
+	"fmt"
 	"net"
+	"os"
 	"strconv"
+	"strings"
 	"sync"
 	"time"
 
@@ -71,9 +74,16 @@ type NextHop struct {
 func StartNextHop(cfg HopConfig) (*NextHop, error) {
 	ip := cfg.ListenIP
 	if ip == "" {
-		ip = "127.0.0.1"
+		// every shard of a check listens on its own loopback address, so that sockets left in TIME_WAIT by
+		// the other shards never exhaust the port range of one address
+		shard, _ := strconv.Atoi(os.Getenv("VERIF_SHARD"))
+		ip = fmt.Sprintf("127.0.%d.2", 1+shard%200)
 	}
 	l, err := net.Listen("tcp", ip+":0")
+	for try := 0; err != nil && strings.Contains(err.Error(), "address already in use") && try < 100; try++ {
+		time.Sleep(100 * time.Millisecond)
+		l, err = net.Listen("tcp", ip+":0")
+	}
 	if err != nil {
 		return nil, err
 	}
